@@ -22,6 +22,39 @@
   * The hypothesis `CtxWF ctx` (the names in the *initial* context are well-formed) holds for
     `Parser::new` (`C24_*_default`) and is preserved by `new_for_include`
     (`C24_include_context`).
+
+  ══ REPORT ══
+
+  PROVED (14 theorems, none partial: every clause of the property, for ALL input octet strings)
+   * no panic (`C24_no_panic`): no index out of range, no `unwrap`/`expect` on `None`/`Err`, no
+     `ArrayVec` overflow, no RDATA above 65 535 octets handed to the boxing `unwrap`;
+   * termination (`C24_total`): all loops on a decreasing measure, the non-progress marker of
+     the four "while something is left" loops is unreachable;
+   * after its first error it yields nothing more (`C24_latch` on whole runs;
+     `C24_next_sets_latch`, `C24_latched_next` on single calls);
+   * every yielded record has an absolute owner, a type other than NULL / OPT / TSIG and RDATA
+     accepted by `Rdata::validate(class, type)`, typed or in RFC 3597 form (`C24_yield_valid`;
+     `C24_rejected_types` ties the three numbers to the source's constants); the origin of a
+     yielded `$INCLUDE` request is a valid absolute name (`C24_include_origin_valid`);
+   * the same for the `RecordsOnly` iterator, which turns `$INCLUDE` into an error
+     (`C24_records_only`);
+   * the context hypothesis is an invariant (`C24_context_invariant`, `C24_include_context`,
+     `C24_*_default`).
+  ORACLE-ONLY: nothing at the level of the property.  What the correspondence check adds on
+  every run is the tie of the model to the code: op `zf` (items and error lines, model ↔
+  implementation), op `zfc` (the verdict of this property computed on the real output with the
+  real `Rdata::validate` and `Name::validate_uncompressed_all`; spec = `ok`), `zfv` (error
+  kinds, informational), `zf.*` (std's text parsers) — on pretty-printed files, mutations of
+  them, token soups, random octets, boundary sizes (names, labels, strings, 65 535-octet RDATA,
+  65 535 WKS ports), each through whole buffers and 1–7-octet chunked `Read`s.
+  RESTRICTIONS / model assumptions
+   * the Reader's refill/shift buffer is abstracted to "the remaining input" (exact while the
+     underlying `Read` returns 0 only at the end of the input); I/O errors of the stream are
+     outside the model;
+   * std's `u8`/`u16`/`u32`/`Ipv4Addr`/`Ipv6Addr` `FromStr` and `str::from_utf8` are
+     re-implemented in Lean and compared on generated strings;
+   * RDATA validity is `QV.Rdata.validate`, the model of `Rdata::validate` of property C18.
+  FINDINGS: none for this property (D18, the WKS bit order, yields valid RDATA: it is C23's).
 -/
 import QV.Proofs.ZoneFile.Parser
 
